@@ -43,10 +43,16 @@ the same expression in `u64`. -/
 def tableSim (sym : Bool) (salt a b : Nat) : Float32 :=
   Float32.ofNat (if sym then ((a + b) * 13 + a * b * 7 + salt) % 64 else (a * 31 + b * 17 + salt) % 64) / 64
 
+/-- the same table shifted to `[-0.5, 0.5)`: a user-supplied similarity may be negative -/
+def tableSimSigned (sym : Bool) (salt a b : Nat) : Float32 :=
+  (Float32.ofNat (if sym then ((a + b) * 13 + a * b * 7 + salt) % 64 else (a * 31 + b * 17 + salt) % 64) - 32) / 64
+
 def parseSimSpec (s : String) : Option (Nat → Nat → Float32) :=
   match s.toList with
   | 't' :: rest => (String.ofList rest).toNat?.map fun salt => tableSim false salt
   | 's' :: rest => (String.ofList rest).toNat?.map fun salt => tableSim true salt
+  | 'n' :: rest => (String.ofList rest).toNat?.map fun salt => tableSimSigned false salt
+  | 'm' :: rest => (String.ofList rest).toNat?.map fun salt => tableSimSigned true salt
   | _ => none
 
 def parseCombiner (s : String) : Option Combine.Combiner :=
